@@ -15,7 +15,7 @@ def corpus_cases(pid):
                 if ln and not ln.startswith('#'): out.append(ln)
     return out
 
-HARNESS_OF_CLASS = {'CONC': 'conc', 'D': 'classes', 'U': 'classes', 'DM': 'multi', 'UM': 'multi', 'DW': 'multi', 'UW': 'multi'}
+HARNESS_OF_CLASS = {'DJF': 'float', 'WF': 'float', 'CONC': 'conc', 'D': 'classes', 'U': 'classes', 'DM': 'multi', 'UM': 'multi', 'DW': 'multi', 'UW': 'multi'}
 def default_route(case):
     return HARNESS_OF_CLASS.get(case.split(None, 1)[0])
 
@@ -111,7 +111,9 @@ def run_property(pid, P, tier, seed):
             built2 = list(ex.map(lambda h: build_harness(h, bdir, flags=cfg['flags'], tag='_' + cfg['tag']), hnames))
         if any(b[0] is None for b in built2):
             proof_broken = proof_broken or ('harness does not compile in configuration %s: %s' % (cfg['tag'], ' '.join(b[1] for b in built2 if b[0] is None)[-500:])); continue
-        sub = cases if not cfg.get('sample') else cases[:len(corp)] + random.Random(seed).sample(cases[len(corp):], min(cfg['sample'], len(cases) - len(corp)))
+        pool = [c for c in cases if not (cfg.get('skip') and cfg['skip'](c))]
+        cs0 = set(cases[:len(corp)]); rest = [c for c in pool if c not in cs0]
+        sub = pool if not cfg.get('sample') else [c for c in pool if c in cs0] + random.Random(seed).sample(rest, min(cfg['sample'], len(rest)))
         S2 = Session(dict(P, wrap=cfg.get('wrap')), pid, {h: b[0] for h, b in zip(hnames, built2)})
         impl2, aborts2 = S2.run_only(sub)
         bad = [c for c in sub if c in aborts2 or impl2.get(c) != impl.get(c)]
@@ -205,7 +207,7 @@ def finish(pid, P, tier, seed, t0, theorems, discharged, assum, cov, violations,
     tb = ['Coq 8.16.1 kernel (coqc, full .vo build; vm_compute used, native_compute not used)',
           'extraction: ExtrOcamlBasic only (Extract Inductive bool/option/unit/list/prod/sumbool/sumor, Extract Inlined Constant andb/orb); nat/positive/Z stay inductive; no Extract Constant of ours',
           'OCaml driver (parsing/printing glue), cross-checked in-kernel on a sample each run',
-          'C++ harness harness/impl_%s.cpp + generators + comparison (lib/, gen/)' % (P['harness'],),
+          'C++ harness ' + ', '.join('harness/impl_%s.cpp' % h for h in (P['harness'] if isinstance(P['harness'], list) else [P['harness']])) + ' + generators + comparison (lib/, gen/)',
           'g++ 12 / libstdc++ / ASan+UBSan as installed']
     for name in theorems:
         tb.append('Print Assumptions %s: %s' % (name, assum.get(name, 'n/a')))
@@ -214,6 +216,7 @@ def finish(pid, P, tier, seed, t0, theorems, discharged, assum, cov, violations,
     cov.update({'obligations': len(theorems), 'discharged': len(discharged), 'theorems': theorems,
                 'checker_cmd': 'cd /verif/coq && make -j16 && coqc -Q theories BG theories/Properties_%s.v' % pid,
                 'trusted_base': tb})
+    cov['source'] = source_fingerprints()
     if extra: cov.update(extra)
     ev = {'property_id': pid, 'tier': tier, 'seed': seed, 'level': 'proof', 'coverage': cov,
           'assumptions': P.get('assumptions', []), 'wall_s': round(time.time() - t0, 2), 'violations': violations}
